@@ -346,10 +346,14 @@ func (h *MultiHandler) abort(err error, culprits ...party.ID) {
 }
 
 // Stop cancels the current execution of the protocol, and alerts the other users.
+// It has no effect if the protocol has already finished or aborted.
 func (h *MultiHandler) Stop() {
+	h.mtx.Lock()
+	defer h.mtx.Unlock()
 	if h.err != nil || h.result != nil {
-		h.abort(errors.New("aborted by user"), h.currentRound.SelfID())
+		return
 	}
+	h.abort(errors.New("aborted by user"), h.currentRound.SelfID())
 }
 
 func expectsNormalMessage(r round.Session) bool {
